@@ -386,10 +386,10 @@ impl<const K: usize> AffTree<K> {
                         iter
                     );
 
-                    debug_assert!(
-                        iter > 0,
-                        "if solutions can be inherited, it should have already occurred in a previous step"
-                    );
+                    // ``iter`` can be 0: the containment tests here and in ``phase_inh`` are
+                    // evaluated with different roundings, so a parent witness next to the new
+                    // half-space can be refused there and accepted here. It is a point of
+                    // ``poly`` either way.
                     debug_assert!(vec.iter().all(|point| poly.contains(point)));
                     counter.mirror_iter.push(iter);
 
